@@ -380,6 +380,7 @@ func runC17(w *World, r *Report) {
 		} else {
 			// accepted idioms: t := And(value, mask); value.Cmp(t) != 0 → error   |   AndNot(value, mask).Sign()/BitLen() != 0 → error
 			found := false
+			tampered := ""
 			inspectParts(func(n ast.Node) bool {
 				is, ok := n.(*ast.IfStmt)
 				if !ok {
@@ -412,6 +413,8 @@ func runC17(w *World, r *Report) {
 				}
 				// bigAnd(e): e is (or is a variable assigned from) X.And(value, mask) / X.AndNot(value, mask)
 				var bigOp func(e ast.Expr, op string) bool
+				var andObj types.Object
+				andPos := token.NoPos
 				bigOp = func(e ast.Expr, op string) bool {
 					if o := identObj(info, e); o != nil {
 						ok2 := false
@@ -419,6 +422,7 @@ func runC17(w *World, r *Report) {
 							if a2, ok := m.(*ast.AssignStmt); ok && len(a2.Lhs) == 1 && len(a2.Rhs) == 1 && identObj(info, a2.Lhs[0]) == o && a2.Pos() < is.Pos() {
 								if bigOp(a2.Rhs[0], op) {
 									ok2 = true
+									andObj, andPos = o, a2.End()
 								}
 							}
 							return true
@@ -439,10 +443,39 @@ func runC17(w *World, r *Report) {
 					}
 					return a0 == valueObj && a1 == maskObj
 				}
+				// between taking value AND mask and testing it, none of the three integers is written (a method called
+				// on one of them stores into it): a "second try" that shifts the value back and masks again accepts
+				// what the first comparison would have refused
+				untouched := func() bool {
+					if andPos == token.NoPos {
+						return true
+					}
+					clean := true
+					inspectParts(func(m ast.Node) bool {
+						c3, ok := m.(*ast.CallExpr)
+						if !ok || c3.Pos() <= andPos || c3.Pos() >= is.Pos() {
+							return true
+						}
+						if s3, ok := unparen(c3.Fun).(*ast.SelectorExpr); ok {
+							if o := identObj(info, s3.X); o != nil && (o == valueObj || o == maskObj || o == andObj) {
+								if fn, ok := info.Uses[s3.Sel].(*types.Func); ok && fn.Pkg() != nil && fn.Pkg().Path() == "math/big" {
+									if sig := fn.Type().(*types.Signature); sig.Results().Len() == 1 && types.Identical(sig.Results().At(0).Type(), sig.Recv().Type()) {
+										clean = false // z.Op(x, y) stores into z
+										tampered = w.Pos(c3.Pos())
+									}
+								}
+							}
+						}
+						return true
+					})
+					return clean
+				}
 				switch se.Sel.Name {
 				case "Cmp":
 					if len(call.Args) == 1 && ((identObj(info, se.X) == valueObj && bigOp(call.Args[0], "And")) || (identObj(info, call.Args[0]) == valueObj && bigOp(se.X, "And"))) {
-						found = true
+						if untouched() {
+							found = true
+						}
 					}
 				case "Sign", "BitLen":
 					if bigOp(se.X, "AndNot") {
@@ -453,6 +486,8 @@ func runC17(w *World, r *Report) {
 			})
 			if found {
 				r.OK("maskcheck", nb.Key, "", npos, "value is compared with value AND mask (or value AND-NOT mask with zero) and a difference returns an error", true)
+			} else if tampered != "" {
+				r.Fail(VViolation, "maskcheck", nb.Key, "", tampered, "the value, the mask or their AND is rewritten between the AND and the test that compares them: what is tested is no longer 'the value has no bit outside the window', so a value that does not fit can be accepted as a different one")
 			} else {
 				r.Fail(VViolation, "maskcheck", nb.Key, "", npos, "no test that the value has no bit outside the mask (value.Cmp(And(value, mask)) != 0 → error, or the AndNot form) guards the field: a value with stray bits is accepted silently")
 			}
